@@ -97,7 +97,7 @@ def rules_c04(prop, repo):
             if not isinstance(z, W):
                 zfac_ok = False
                 continue
-            if not any(fid in dom_vids_of_class(dom, rs, ("diff", "x")) for fid in z.factors):
+            if z.kind != "zero" and not any(fid in dom_vids_of_class(dom, rs, ("diff", "x")) for fid in z.factors):
                 zfac_ok = False
         key = "%s:add:arm(z1==1:%s,z2==1:%s)" % (prop, arm[0], arm[1])
         R.check(bool(dbl_ok) and not fall and zfac_ok and gen, key,
@@ -200,14 +200,27 @@ def rules_c15(prop, repo):
         dom, rs = wrun(F, b, [("byref", p1), ("byref", p2)])
         bad = []
         rows = []
+        # a returned comparison / identity test stands for both of its outcomes
+        expanded = []
         for v, pc in rs:
+            if isinstance(v, tuple) and len(v) == 4 and v[0] == "cond" and v[1] == "cmp":
+                x, y = v[2]
+                for e in (True, False):
+                    expanded.append((e != v[3], tuple(pc) + (("cmp", x.cls, y.cls, dict(x.f), e),)))
+            elif isinstance(v, tuple) and len(v) == 4 and v[0] == "cond" and v[1] == "iszero":
+                w = v[2]
+                for e in (True, False):
+                    expanded.append((e != v[3], tuple(pc) + (("is_zero", w.vid, dict(w.f), w.cls, e),)))
+            else:
+                expanded.append((v, pc))
+        for v, pc in expanded:
             z1 = next((c[4] for c in pc if c[0] == "is_zero" and c[1] == p1.fields[2].vid), None)
             z2 = next((c[4] for c in pc if c[0] == "is_zero" and c[1] == p2.fields[2].vid), None)
             cmps = [(c[1], c[2], c[4]) for c in pc if c[0] == "cmp"]
             rows.append({"self=O": z1, "other=O": z2, "comparisons": cmps, "result": repr(v)[:40]})
             if z1 is True:
-                if not (isinstance(v, tuple) and v[:2] == ("cond", "iszero") and v[2].vid == p2.fields[2].vid and not v[3]) and not (z2 is not None and v is z2):
-                    bad.append("self = O must return other.is_zero(): %r" % (v,))
+                if z2 is None or v is not z2:
+                    bad.append("self = O must return other.is_zero(): %r (other tested: %s)" % (v, z2))
             elif z2 is True:
                 if v is not False:
                     bad.append("self ≠ O, other = O must return false: %r" % (v,))
@@ -261,6 +274,13 @@ def rules_c15(prop, repo):
         R2.fail_closed("%s:to_jacobian:anchor" % prop, "to_jacobian not found")
     else:
         rv = repo.tb(jb).return_value()
+        from core.terms import expand_call
+        for _ in range(2):
+            if rv[0] == "call":
+                e = expand_call(repo, rv, lambda cb: len(cb.blocks) <= 4 and cb.rec["path"].startswith("crate::groups::"))
+                if e is None:
+                    break
+                rv = e
         ok = rv[0] == "agg" and rv[1] == "crate::groups::G" and strip(rv[3][0]) == ("field", ("param", 1), 0) and strip(rv[3][1]) == ("field", ("param", 1), 1) and strip(rv[3][2])[0] == "call" and strip(rv[3][2])[1].name == "one"
         R2.check(ok, "%s:to_jacobian" % prop, "to_jacobian is not (x, y, one()): %s" % show(rv, maxdepth=3)[:120], jb.file_line(), jb.rec["path"], sample={"to_jacobian": show(rv, maxdepth=3)[:100]})
     from .norm import Norm
@@ -342,59 +362,74 @@ def rules_c09(prop, repo):
     bad = []
     cmp_atoms = []
     co_atom = None
+    zero_atoms = []
     for a in atoms:
         if a[0] == "ord":
             cmp_atoms.append(a)
         elif a[0] == "bool" and a[1][0] == "call" and a[1][1].name == "check_order":
             co_atom = a
-    if len(cmp_atoms) != 2 or co_atom is None:
-        R.fail_closed("%s:new:shape" % prop, "expected two comparisons and one check_order() test, found %d / %s" % (len(cmp_atoms), co_atom is not None), b.file_line())
+        elif a[0] == "bool" and a[1][0] == "call" and a[1][1].name == "is_zero" and len(a[1][2]) == 1:
+            zero_atoms.append(a)
+
+    def is_curve(a):
+        return degree(a[1], {("param", 1)}, {("param", 2)}) is not None or degree(a[2], {("param", 1)}, {("param", 2)}) is not None
+    ca = [a for a in cmp_atoms if is_curve(a)]
+    sa = [a for a in cmp_atoms if not is_curve(a)] + zero_atoms      # the subgroup test: `X != G::zero()` or `!X.is_zero()`
+    if len(ca) != 1 or len(sa) != 1 or co_atom is None or len(cmp_atoms) + len(zero_atoms) != 2:
+        R.fail_closed("%s:new:shape" % prop, "expected the curve comparison, one subgroup test (against zero) and one check_order() test, found %d / %d / %s" % (len(ca), len(sa), co_atom is not None), b.file_line())
     else:
-        # which comparison is the curve test: the one whose operands are field values built from the parameters
-        def is_curve(a):
-            return degree(a[1], {("param", 1)}, {("param", 2)}) is not None or degree(a[2], {("param", 1)}, {("param", 2)}) is not None
-        ca = [a for a in cmp_atoms if is_curve(a)]
-        sa = [a for a in cmp_atoms if not is_curve(a)]
-        if len(ca) != 1 or len(sa) != 1:
-            R.fail_closed("%s:new:shape2" % prop, "cannot tell the curve test from the subgroup test", b.file_line())
-        else:
-            ca, sa = ca[0], sa[0]
-            for asg in paths.enumerate_assignments(atoms):
-                res = paths.simulate(b, tb, paths.Evaluator(asg))
-                v = paths.path_value(b, tb, res.blocks, 0)
-                names = {x[2] for x in alts(v) if x[0] == "agg"}
-                on_curve = asg[ca] == "E"
-                co = bool(asg[co_atom])
-                in_sub = asg[sa] == "E"
-                want = "Ok" if on_curve and (not co or in_sub) else "Err"
-                got = "Ok" if names == {"Ok"} else "Err" if names <= {"Err"} and names else "?"
-                rows.append({"on_curve": on_curve, "check_order": co, "r·P=O": in_sub, "result": got})
-                if got != want:
-                    bad.append(rows[-1])
-            R.check(not bad, "%s:new:truth-table" % prop, "AffineG::new accepts / rejects against the specification on %s" % bad[:3], b.file_line(), b.rec["path"], sample={"rows": rows[:6], "row_count": len(rows)})
-            # degrees
-            R.instance()
-            d1 = degree(ca[1], {("param", 1)}, {("param", 2)})
-            d2 = degree(ca[2], {("param", 1)}, {("param", 2)})
-            R.check({d1, d2} == {(0, 2, False), (3, 0, True)}, "%s:new:degree" % prop, "curve test compares degrees %s and %s; expected y² and x³+b" % (d1, d2), b.file_line(), b.rec["path"],
-                    sample={"lhs(deg_x,deg_y,b)": d1, "rhs": d2})
-            # subgroup test operands
-            R.instance()
+        ca, sa = ca[0], sa[0]
+
+        def in_subgroup(asg):
+            return asg[sa] == "E" if sa[0] == "ord" else bool(asg[sa])
+        for asg in paths.enumerate_assignments(atoms):
+            res = paths.simulate(b, tb, paths.Evaluator(asg))
+            v = paths.path_value(b, tb, res.blocks, 0)
+            names = {x[2] for x in alts(v) if x[0] == "agg"}
+            on_curve = asg[ca] == "E"
+            co = bool(asg[co_atom])
+            in_sub = in_subgroup(asg)
+            want = "Ok" if on_curve and (not co or in_sub) else "Err"
+            got = "Ok" if names == {"Ok"} else "Err" if names <= {"Err"} and names else "?"
+            rows.append({"on_curve": on_curve, "check_order": co, "r·P=O": in_sub, "result": got})
+            if got != want:
+                bad.append(rows[-1])
+        R.check(not bad, "%s:new:truth-table" % prop, "AffineG::new accepts / rejects against the specification on %s" % bad[:3], b.file_line(), b.rec["path"], sample={"rows": rows[:6], "row_count": len(rows)})
+        # degrees
+        R.instance()
+        d1 = degree(ca[1], {("param", 1)}, {("param", 2)})
+        d2 = degree(ca[2], {("param", 1)}, {("param", 2)})
+        R.check({d1, d2} == {(0, 2, False), (3, 0, True)}, "%s:new:degree" % prop, "curve test compares degrees %s and %s; expected y² and x³+b" % (d1, d2), b.file_line(), b.rec["path"],
+                sample={"lhs(deg_x,deg_y,b)": d1, "rhs": d2})
+        # subgroup test operands
+        R.instance()
+        from core.terms import expand_call
+        if sa[0] == "ord":
             l, r_ = strip(sa[1]), strip(sa[2])
             if l[0] == "call" and l[1].name == "zero":
                 l, r_ = r_, l
-            ok = False
-            desc = show(l, maxdepth=5)[:200]
-            if r_[0] == "call" and r_[1].name == "zero" and l[0] == "call" and l[1].name == "add" and len(l[2]) == 2:
-                m, p = strip(l[2][0]), strip(l[2][1])
-                if m[0] != "call" or m[1].name != "mul":
-                    m, p = p, m
-                if m[0] == "call" and m[1].name == "mul" and len(m[2]) == 2:
-                    pm, sc = strip(m[2][0]), strip(m[2][1])
-                    is_p = lambda t: t[0] == "agg" and t[1] == "crate::groups::G" and strip(t[3][0]) == ("param", 1) and strip(t[3][1]) == ("param", 2) and strip(t[3][2])[0] == "call" and strip(t[3][2])[1].name == "one"
-                    is_m1 = sc[0] == "call" and sc[1].name == "neg" and strip(sc[2][0])[0] == "call" and strip(sc[2][0])[1].name == "one" and "fp::Fr" in strip(sc[2][0])[1].i
-                    ok = is_p(pm) and is_p(p) and is_m1
-            R.check(ok, "%s:new:subgroup-operands" % prop, "subgroup test is not ((x,y,1)·(−Fr::one()) + (x,y,1)) vs G::zero(): %s" % desc, b.file_line(), b.rec["path"], sample={"test": desc[:140]})
+            vs_zero = r_[0] == "call" and r_[1].name == "zero"
+        else:
+            l = strip(sa[1][2][0])
+            vs_zero = True
+        ok = False
+        desc = show(l, maxdepth=5)[:200]
+        if vs_zero and l[0] == "call" and l[1].name == "add" and len(l[2]) == 2:
+            m, p = strip(l[2][0]), strip(l[2][1])
+            if m[0] != "call" or m[1].name != "mul":
+                m, p = p, m
+            if m[0] == "call" and m[1].name == "mul" and len(m[2]) == 2:
+                pm, sc = strip(m[2][0]), strip(m[2][1])
+
+                def is_p(t):
+                    if t[0] == "call":
+                        e = expand_call(repo, t, lambda cb: len(cb.blocks) <= 4 and cb.rec["path"].startswith("crate::groups::"))
+                        if e is not None:
+                            t = e
+                    return t[0] == "agg" and t[1] == "crate::groups::G" and strip(t[3][0]) == ("param", 1) and strip(t[3][1]) == ("param", 2) and strip(t[3][2])[0] == "call" and strip(t[3][2])[1].name == "one"
+                is_m1 = sc[0] == "call" and sc[1].name == "neg" and strip(sc[2][0])[0] == "call" and strip(sc[2][0])[1].name == "one" and "fp::Fr" in strip(sc[2][0])[1].i
+                ok = is_p(pm) and is_p(p) and is_m1
+        R.check(ok, "%s:new:subgroup-operands" % prop, "subgroup test is not ((x,y,1)·(−Fr::one()) + (x,y,1)) vs G::zero(): %s" % desc, b.file_line(), b.rec["path"], sample={"test": desc[:140]})
     # check_order per parameter set
     for params, want in (("crate::groups::G2Params", True), ("crate::groups::G1Params", False)):
         R.instance()
